@@ -25,6 +25,9 @@ S(id, cond) == Strict => Check(t, l, id, cond)
 At(id, reg, v) == id \o "@" \o reg \o "@" \o ToString(v)
 IsErr(name) == Len(name) > 0 /\ Ch(name, 1) = "!"
 B(p) == IF p THEN 1 ELSE 0
+(* a quantified block of checks is evaluated as ONE expression (TLC unfolds an action-level \A recursively: 256
+   entries overflow its stack) *)
+Whole(p) == p = TRUE
 
 (* ------------------------------------------------------------------ row *)
 RowEntry(reg, k) ==
@@ -52,7 +55,7 @@ TRow ==
     /\ LET n == Len(e.name)
        IN  /\ C("RowComplete@" \o e.reg, (HasKey(e, "part") \/ n = RowLen(e.reg, e.lo)) /\ e.lo + n - 1 <= Max(e.reg)
                                           /\ \A f \in {"back", "gen", "genl", "mk", "mkn"} : Len(e[f]) = n)
-           /\ \A k \in 1..n : RowEntry(e.reg, k)
+           /\ Whole(\A k \in 1..n : RowEntry(e.reg, k))
     /\ Adv /\ Stay
 
 (* ------------------------------------------------------------------ text:  r = <<tag, value, canon | exception, again | code>> *)
@@ -97,7 +100,7 @@ TokensOk(lay, names, mask, x, text) ==     \* the named flags shown are exactly 
 TFRow ==
     /\ e.op = "frow"
     /\ C("FRowComplete", HasKey(e, "part") \/ (Len(e.text) = 256 /\ e.lo % 256 = 0))
-    /\ \A k \in 1..Len(e.text) :
+    /\ Whole(\A k \in 1..Len(e.text) :
          LET f == e.lo + k - 1
              id(c) == c \o "@" \o ToString(f)
          IN  /\ C(id("FlagsTextNames"), ~IsErr(e.text[k]) /\ TokensOk(Header, FlagNames, FlagsMask, f, e.text[k]))
@@ -105,39 +108,39 @@ TFRow ==
              /\ S(id("FlagsTextExact"), e.text[k] = Join(FlagTokens(Header, FlagNames, FlagsMask, f)))
              /\ C(id("OpcodeFromFlags"), e.opc[k] = OpcodeFromFlags(f))
              /\ C(id("IsUpdate"), e.upd[k] = B(IsUpdate(f)))
-             /\ C(id("OpcodeToFlags"), e.opf[k] = And(f, MaskF(Header, "OPCODE"), 16) /\ e.opf[k] = OpcodeToFlags(e.opc[k]))
+             /\ C(id("OpcodeToFlags"), e.opf[k] = And(f, MaskF(Header, "OPCODE"), 16) /\ e.opf[k] = OpcodeToFlags(e.opc[k])))
     /\ Adv /\ Stay
 TERow ==
     /\ e.op = "erow"
     /\ C("ERowComplete", HasKey(e, "part") \/ (Len(e.text) = 256 /\ e.lo % 256 = 0))
-    /\ \A k \in 1..Len(e.text) :
+    /\ Whole(\A k \in 1..Len(e.text) :
          LET f == e.lo + k - 1
              id(c) == c \o "@" \o ToString(f)
          IN  /\ C(id("EdnsTextNames"), ~IsErr(e.text[k]) /\ TokensOk(EdnsLo, EFlagNames, EFlagsMask, f, e.text[k]))
              /\ C(id("EdnsRoundTrip"), e.back[k] = f)
-             /\ S(id("EdnsTextExact"), e.text[k] = Join(FlagTokens(EdnsLo, EFlagNames, EFlagsMask, f)))
+             /\ S(id("EdnsTextExact"), e.text[k] = Join(FlagTokens(EdnsLo, EFlagNames, EFlagsMask, f))))
     /\ Adv /\ Stay
 
 (* ------------------------------------------------------------------ rcode <-> (flags, ednsflags) *)
 TRcRow ==
     /\ e.op = "rcrow"
     /\ C("RcRowComplete", HasKey(e, "part") \/ (Len(e.back) = 256 /\ e.lo % 256 = 0 /\ e.lo + 255 <= 4095))
-    /\ \A k \in 1..Len(e.back) :
+    /\ Whole(\A k \in 1..Len(e.back) :
          LET r == e.lo + k - 1
              id(c) == c \o "@" \o ToString(r)
          IN  /\ C(id("RcodeToFlags"), e.toflags[k] = RcodeToFlags(r))
              /\ C(id("RcodeFromToFlags"), e.back[k] = r)
-             /\ C(id("RcodeFromFlagsNoise"), e.nres[k] = RcodeFromFlags(e.nin[k][1], e.nin[k][2]) /\ e.nres[k] = r)
+             /\ C(id("RcodeFromFlagsNoise"), e.nres[k] = RcodeFromFlags(e.nin[k][1], e.nin[k][2]) /\ e.nres[k] = r))
     /\ Adv /\ Stay
 TRcf ==
     /\ e.op = "rcf"
     /\ C("RcfRowComplete", HasKey(e, "part") \/ (Len(e.res) = 256 /\ e.lo % 256 = 0))
-    /\ \A k \in 1..Len(e.res) : C("RcodeFromFlags@" \o ToString(e.lo + k - 1) \o "@" \o ToString(e.hi), e.res[k] = RcodeFromFlags(e.lo + k - 1, e.hi))
+    /\ Whole(\A k \in 1..Len(e.res) : C("RcodeFromFlags@" \o ToString(e.lo + k - 1) \o "@" \o ToString(e.hi), e.res[k] = RcodeFromFlags(e.lo + k - 1, e.hi)))
     /\ Adv /\ Stay
 TRce ==
     /\ e.op = "rce"
     /\ C("RceRowComplete", HasKey(e, "part") \/ (Len(e.res) = 256 /\ e.lo % 256 = 0))
-    /\ \A k \in 1..Len(e.res) : C("RcodeFromEdns@" \o ToString(e.flags) \o "@" \o ToString(e.lo + k - 1), e.res[k] = RcodeFromFlags(e.flags, e.lo + k - 1))
+    /\ Whole(\A k \in 1..Len(e.res) : C("RcodeFromEdns@" \o ToString(e.flags) \o "@" \o ToString(e.lo + k - 1), e.res[k] = RcodeFromFlags(e.flags, e.lo + k - 1)))
     /\ Adv /\ Stay
 
 (* ------------------------------------------------------------------ flag texts
@@ -193,7 +196,7 @@ TRegister ==
     /\ e.op = "register"
     /\ C("RegisterOk", e.out = "ok")
     /\ Register(e.v, e.text, e.single)
-    /\ \A k \in 1..Len(regs') : Clean(k)' =>
+    /\ Whole(\A k \in 1..Len(regs') : CleanIn(regs', k) =>
          LET v == regs'[k][1]
              txt == regs'[k][2]
              id(c) == c \o "@" \o txt
@@ -201,11 +204,11 @@ TRegister ==
              /\ C(id("RegisteredFromText"), e.fromtext[PosIn(e.qt, txt)] = v)
              /\ C(id("RegisteredFromTextUpper"), e.fromtext[PosIn(e.qt, Upper(txt))] = v)
              /\ C(id("RegisteredFromTextLower"), e.fromtext[PosIn(e.qt, Lower(txt))] = v)
-             /\ C(id("RegisteredSingleton"), regs'[k][3] => e.isingle[PosIn(e.qv, v)] = 1)
+             /\ C(id("RegisteredSingleton"), regs'[k][3] => e.isingle[PosIn(e.qv, v)] = 1))
     /\ C("BuiltinSingletons", \A i \in 1..Len(e.qv) : e.qv[i] \in SingletonTypes => e.isingle[i] = 1)
-    /\ S("RegistryToText", \A i \in 1..Len(e.qv) : e.totext[i] = RToText(e.qv[i])' /\ e.name[i] = e.totext[i])
-    /\ S("RegistryFromText", \A i \in 1..Len(e.qt) : LET q == RFromText(e.qt[i])' IN e.fromtext[i] = IF q[1] = "ok" THEN q[2] ELSE IF q[2] = "range" THEN -2 ELSE -1)
-    /\ S("RegistrySingleton", \A i \in 1..Len(e.qv) : e.isingle[i] = B(RSingleton(e.qv[i])'))
+    /\ S("RegistryToText", \A i \in 1..Len(e.qv) : e.totext[i] = RToTextIn(regs', e.qv[i]) /\ e.name[i] = e.totext[i])
+    /\ S("RegistryFromText", \A i \in 1..Len(e.qt) : LET q == RFromTextIn(regs', e.qt[i]) IN e.fromtext[i] = IF q[1] = "ok" THEN q[2] ELSE IF q[2] = "range" THEN -2 ELSE -1)
+    /\ S("RegistrySingleton", \A i \in 1..Len(e.qv) : e.isingle[i] = B(RSingletonIn(regs', e.qv[i])))
     /\ Adv
 
 TraceInit == RegInit /\ t \in 1..NTraces /\ l = 1 /\ flags = 0 /\ ehi = 0 /\ elo = 0 /\ opt = FALSE /\ regs = <<>>
